@@ -64,6 +64,9 @@ Record column := mkCol { c_name : string; c_dtype : dtype; c_unit : string }.
 Record hdr := mkHdr { h_oid : nat; h_idx : nat; h_kind : kind; h_parent : option nat;
                       h_name : string; h_type : string; h_def : option string }.
 
+(** dimension descriptors: only the kind and the link a descriptor holds (the descriptor fields are C13's) *)
+Inductive dimd := DimSet | DimRange | DimSampled | DimAlias | DimFrame (f : option nat).
+
 Record links := mkLinks {
   l_meta : option nat;   (* EntityWithMetadata: link "metadata" -> section *)
   l_link : option nat;   (* Section: link "link" -> section *)
@@ -75,7 +78,9 @@ Record links := mkLinks {
   l_garr : list nat;     (* Group: data_arrays/<id> *)
   l_gfrm : list nat;     (* Group: data_frame/<id> *)
   l_gtag : list nat;     (* Group: tags/<id> *)
-  l_gmtg : list nat      (* Group: multi_tags/<id> *)
+  l_gmtg : list nat;     (* Group: multi_tags/<id> *)
+  l_dims : list dimd     (* DataArray: dimensions/<1..n>; a data-frame dimension holds a link "data_frame" -> frame,
+                            an alias range dimension a link <array id> -> the array itself *)
 }.
 
 Record payload := mkPay {
@@ -92,7 +97,7 @@ Record ent := mkEnt { e_hdr : hdr; e_links : links; e_pay : payload }.
 
 Record db := mkDb { ents : list ent; next : nat }.
 
-Definition no_links : links := mkLinks None None None None None [] [] [] [] [] [].
+Definition no_links : links := mkLinks None None None None None [] [] [] [] [] [] [].
 Definition no_payload : payload := mkPay DNothing [] [] None None [] EmptyString.
 
 Definition e_oid (e : ent) : nat := h_oid (e_hdr e).
@@ -115,23 +120,29 @@ Definition get_l (sl : lslot) (l : links) : list nat :=
   end.
 Definition set_l (sl : lslot) (v : list nat) (l : links) : links :=
   match sl with
-  | LRefs => mkLinks (l_meta l) (l_link l) (l_pos l) (l_ext l) (l_data l) v (l_srcs l) (l_garr l) (l_gfrm l) (l_gtag l) (l_gmtg l)
-  | LSrcs => mkLinks (l_meta l) (l_link l) (l_pos l) (l_ext l) (l_data l) (l_refs l) v (l_garr l) (l_gfrm l) (l_gtag l) (l_gmtg l)
-  | LGArr => mkLinks (l_meta l) (l_link l) (l_pos l) (l_ext l) (l_data l) (l_refs l) (l_srcs l) v (l_gfrm l) (l_gtag l) (l_gmtg l)
-  | LGFrm => mkLinks (l_meta l) (l_link l) (l_pos l) (l_ext l) (l_data l) (l_refs l) (l_srcs l) (l_garr l) v (l_gtag l) (l_gmtg l)
-  | LGTag => mkLinks (l_meta l) (l_link l) (l_pos l) (l_ext l) (l_data l) (l_refs l) (l_srcs l) (l_garr l) (l_gfrm l) v (l_gmtg l)
-  | LGMtg => mkLinks (l_meta l) (l_link l) (l_pos l) (l_ext l) (l_data l) (l_refs l) (l_srcs l) (l_garr l) (l_gfrm l) (l_gtag l) v
+  | LRefs => mkLinks (l_meta l) (l_link l) (l_pos l) (l_ext l) (l_data l) v (l_srcs l) (l_garr l) (l_gfrm l) (l_gtag l) (l_gmtg l) (l_dims l)
+  | LSrcs => mkLinks (l_meta l) (l_link l) (l_pos l) (l_ext l) (l_data l) (l_refs l) v (l_garr l) (l_gfrm l) (l_gtag l) (l_gmtg l) (l_dims l)
+  | LGArr => mkLinks (l_meta l) (l_link l) (l_pos l) (l_ext l) (l_data l) (l_refs l) (l_srcs l) v (l_gfrm l) (l_gtag l) (l_gmtg l) (l_dims l)
+  | LGFrm => mkLinks (l_meta l) (l_link l) (l_pos l) (l_ext l) (l_data l) (l_refs l) (l_srcs l) (l_garr l) v (l_gtag l) (l_gmtg l) (l_dims l)
+  | LGTag => mkLinks (l_meta l) (l_link l) (l_pos l) (l_ext l) (l_data l) (l_refs l) (l_srcs l) (l_garr l) (l_gfrm l) v (l_gmtg l) (l_dims l)
+  | LGMtg => mkLinks (l_meta l) (l_link l) (l_pos l) (l_ext l) (l_data l) (l_refs l) (l_srcs l) (l_garr l) (l_gfrm l) (l_gtag l) v (l_dims l)
   end.
 Definition get_o (sl : oslot) (l : links) : option nat :=
   match sl with OMeta => l_meta l | OLink => l_link l | OPos => l_pos l | OExt => l_ext l | OData => l_data l end.
 Definition set_o (sl : oslot) (v : option nat) (l : links) : links :=
   match sl with
-  | OMeta => mkLinks v (l_link l) (l_pos l) (l_ext l) (l_data l) (l_refs l) (l_srcs l) (l_garr l) (l_gfrm l) (l_gtag l) (l_gmtg l)
-  | OLink => mkLinks (l_meta l) v (l_pos l) (l_ext l) (l_data l) (l_refs l) (l_srcs l) (l_garr l) (l_gfrm l) (l_gtag l) (l_gmtg l)
-  | OPos  => mkLinks (l_meta l) (l_link l) v (l_ext l) (l_data l) (l_refs l) (l_srcs l) (l_garr l) (l_gfrm l) (l_gtag l) (l_gmtg l)
-  | OExt  => mkLinks (l_meta l) (l_link l) (l_pos l) v (l_data l) (l_refs l) (l_srcs l) (l_garr l) (l_gfrm l) (l_gtag l) (l_gmtg l)
-  | OData => mkLinks (l_meta l) (l_link l) (l_pos l) (l_ext l) v (l_refs l) (l_srcs l) (l_garr l) (l_gfrm l) (l_gtag l) (l_gmtg l)
+  | OMeta => mkLinks v (l_link l) (l_pos l) (l_ext l) (l_data l) (l_refs l) (l_srcs l) (l_garr l) (l_gfrm l) (l_gtag l) (l_gmtg l) (l_dims l)
+  | OLink => mkLinks (l_meta l) v (l_pos l) (l_ext l) (l_data l) (l_refs l) (l_srcs l) (l_garr l) (l_gfrm l) (l_gtag l) (l_gmtg l) (l_dims l)
+  | OPos  => mkLinks (l_meta l) (l_link l) v (l_ext l) (l_data l) (l_refs l) (l_srcs l) (l_garr l) (l_gfrm l) (l_gtag l) (l_gmtg l) (l_dims l)
+  | OExt  => mkLinks (l_meta l) (l_link l) (l_pos l) v (l_data l) (l_refs l) (l_srcs l) (l_garr l) (l_gfrm l) (l_gtag l) (l_gmtg l) (l_dims l)
+  | OData => mkLinks (l_meta l) (l_link l) (l_pos l) (l_ext l) v (l_refs l) (l_srcs l) (l_garr l) (l_gfrm l) (l_gtag l) (l_gmtg l) (l_dims l)
   end.
+
+Definition set_dims (v : list dimd) (l : links) : links :=
+  mkLinks (l_meta l) (l_link l) (l_pos l) (l_ext l) (l_data l) (l_refs l) (l_srcs l) (l_garr l) (l_gfrm l) (l_gtag l) (l_gmtg l) v.
+(** the frames the data-frame dimensions link to *)
+Definition dim_frames (l : links) : list nat := flat_map (fun d => match d with DimFrame (Some f) => [f] | _ => [] end) (l_dims l).
+Definition has_alias (l : links) : bool := existsb (fun d => match d with DimAlias => true | _ => false end) (l_dims l).
 
 Definition all_lslots : list lslot := [LRefs; LSrcs; LGArr; LGFrm; LGTag; LGMtg].
 Definition all_oslots : list oslot := [OMeta; OLink; OPos; OExt; OData].
@@ -188,10 +199,11 @@ Definition subtree (s : db) (x : nat) : list nat := fold_left (dead_step x) (ent
 (** H5Group::removeAllLinks: every link to a removed object disappears, whoever holds it *)
 Definition scrub_o (dead : list nat) (o : option nat) : option nat := if in_opt o dead then None else o.
 Definition scrub_l (dead : list nat) (l : list nat) : list nat := filter (fun t => negb (memn t dead)) l.
+Definition scrub_d (dead : list nat) (d : dimd) : dimd := match d with DimFrame f => DimFrame (scrub_o dead f) | x => x end.
 Definition scrub_links (dead : list nat) (l : links) : links :=
   mkLinks (scrub_o dead (l_meta l)) (scrub_o dead (l_link l)) (scrub_o dead (l_pos l)) (scrub_o dead (l_ext l))
           (scrub_o dead (l_data l)) (scrub_l dead (l_refs l)) (scrub_l dead (l_srcs l)) (scrub_l dead (l_garr l))
-          (scrub_l dead (l_gfrm l)) (scrub_l dead (l_gtag l)) (scrub_l dead (l_gmtg l)).
+          (scrub_l dead (l_gfrm l)) (scrub_l dead (l_gtag l)) (scrub_l dead (l_gmtg l)) (map (scrub_d dead) (l_dims l)).
 
 (** delete the entity [x] together with its subtree and every link to a member of it *)
 Definition remove_subtree (s : db) (x : nat) : db :=
